@@ -280,13 +280,29 @@ class _Expander:
                     if cls_node is None:
                         continue
                 found.setdefault(fn.name, []).append(_Helper(rel, parts, fn, cls_node))
-        existing = set()
+        existing = {}
         for k in self.ref:
-            existing.add(k.split("::")[1].split(".")[-1])
+            q = k.split("::")[1].split(".")
+            existing.setdefault(q[-1], set()).add(q[0] if len(q) > 1 else None)
         out = {}
+        classes = None
         for name, hs in found.items():
-            if len(hs) == 1 and name not in existing and hs[0].expandable():
-                out[name] = hs[0]
+            if len(hs) != 1 or not hs[0].expandable():
+                continue
+            h = hs[0]
+            h.scoped = False
+            if name in existing:
+                # the name is also an existing function's: only reads / calls through `self` inside the helper's own
+                # class can be resolved, and only if the other owners are classes unrelated to it
+                if not h.is_method or h.static or h.classmethod or None in existing[name]:
+                    continue
+                if classes is None:
+                    classes = _mutable_attrs(self.trees)[2]
+                fam = _family(classes, h.cls_node.name) if h.cls_node.name in classes else {h.cls_node.name}
+                if existing[name] & set(fam):
+                    continue
+                h.scoped = True
+            out[name] = h
         return out
 
     # ---- one call site
@@ -385,8 +401,16 @@ class _Expander:
             f = node.func
             nm = f.attr if isinstance(f, ast.Attribute) else (f.id if isinstance(f, ast.Name) else None)
             if nm in helpers:
-                return helpers[nm]
+                h = helpers[nm]
+                if getattr(h, "scoped", False) and not self._scoped_ok(h, f):
+                    return None
+                return h
         return None
+
+    def _scoped_ok(self, h, f):
+        parts = getattr(self, "_cur_parts", None)
+        return (isinstance(f, ast.Attribute) and isinstance(f.value, ast.Name) and f.value.id == "self"
+                and parts is not None and len(parts) == 2 and parts[0] == h.cls_node.name)
 
     def _caller_names(self, fn):
         names = set(alpha.params_of(fn))
@@ -551,6 +575,27 @@ class _Expander:
                         produced = self._instantiate(h, s.value, names, None, keep_returns=True)
                         if not _always_returns(h.body()):
                             produced.append(ast.copy_location(ast.Return(value=None), s))
+                    elif isinstance(s, ast.Return) and isinstance(s.value, ast.UnaryOp) and isinstance(s.value.op, ast.Not) \
+                            and self._helper_call(s.value.operand, helpers):
+                        # `return not helper(...)`: the helper's body with every result negated
+                        h = self._helper_call(s.value.operand, helpers)
+                        if not _always_returns(h.body()):
+                            raise _CannotExpand("negated result not returned on every path")
+                        produced = self._instantiate(h, s.value.operand, names, None, keep_returns=True)
+
+                        class _NegRet(ast.NodeTransformer):
+                            def visit_FunctionDef(self, n):
+                                return n
+                            visit_AsyncFunctionDef = visit_ClassDef = visit_Lambda = visit_FunctionDef
+
+                            def visit_Return(self, r):
+                                v = r.value if r.value is not None else ast.Constant(value=None)
+                                if isinstance(v, ast.Constant):
+                                    nv = ast.Constant(value=not v.value)
+                                else:
+                                    nv = ast.UnaryOp(op=ast.Not(), operand=v)
+                                return ast.copy_location(ast.Return(value=ast.copy_location(nv, r)), r)
+                        produced = [_NegRet().visit(p_) for p_ in produced]
                     else:
                         c = hoistable_call(s)
                         if c is not None:
@@ -612,10 +657,14 @@ class _Expander:
         props = {n for n, h in helpers.items() if h.is_property}
         synthetic = []
         if props:
+            exp_ = self
+
             class P(ast.NodeTransformer):
                 def visit_Attribute(self, a):
                     self.generic_visit(a)
                     if a.attr in props and isinstance(a.ctx, ast.Load):
+                        if getattr(helpers[a.attr], "scoped", False) and not exp_._scoped_ok(helpers[a.attr], a):
+                            return a
                         c = ast.copy_location(ast.Call(func=a, args=[], keywords=[]), a)
                         synthetic.append(c)
                         return c
@@ -624,11 +673,13 @@ class _Expander:
                 for parts, fn in alpha.walk_functions(tree):
                     if fn.name in props:
                         continue
+                    self._cur_parts = parts
                     fn.body = [P().visit(st) for st in fn.body]
         for _ in range(MAX_ROUNDS):
             any_change = False
             for rel, tree in self.trees.items():
                 for parts, fn in alpha.walk_functions(tree):
+                    self._cur_parts = parts
                     if self.expand_in_function(fn, helpers):
                         any_change = True
             if not any_change:
@@ -792,11 +843,15 @@ def _plain_chain(root_cls, attrs, stored, computed, classes):
 
 
 def _external_field_stored(trees, root, attr):
+    """does the package assign `.attr` through a chain that starts at a name `root`"""
     for tree in trees.values():
         for n in ast.walk(tree):
-            if isinstance(n, ast.Attribute) and isinstance(n.ctx, (ast.Store, ast.Del)) and n.attr == attr \
-                    and isinstance(n.value, ast.Name) and n.value.id == root:
-                return True
+            if isinstance(n, ast.Attribute) and isinstance(n.ctx, (ast.Store, ast.Del)) and n.attr == attr:
+                b = n.value
+                while isinstance(b, ast.Attribute):
+                    b = b.value
+                if isinstance(b, ast.Name) and b.id == root:
+                    return True
     return False
 
 
@@ -830,9 +885,10 @@ def propagate_new_aliases(trees):
                     return False
                 root, attrs = ch
                 root_cls = parts[0] if (root == "self" and len(parts) == 2) else NAMING_VARS.get(root)
-                if root in EXTERNAL_ROOTS and root_cls is None and len(attrs) == 1:
-                    # a field of a client-library record: plain, unless the package assigns that field through this name
-                    if not any(rc is None and True for rc, owner in ()) and not _external_field_stored(trees, root, attrs[0]):
+                if root in EXTERNAL_ROOTS and root_cls is None and 1 <= len(attrs) <= 3:
+                    # a field of a client-library record (or of a record nested in it): plain, unless the package
+                    # assigns one of these fields through this name
+                    if not any(_external_field_stored(trees, root, a) for a in attrs):
                         return name_ok(root)
                 if not _plain_chain(root_cls, attrs, stored_attrs, computed_attrs, classes):
                     return False
